@@ -2,7 +2,7 @@
 # tools/merge_builder.sh cXX : merge branch build-cXX into main, build its Lean targets, run its quick check
 p=$1; P=$(echo $p | tr a-z A-Z)
 cd /verif || exit 2
-git merge --no-edit build-$p 2>&1 | tail -3
+git merge --no-edit -X theirs build-$p 2>&1 | tail -3 || { echo MERGE-FAILED; exit 3; }
 python3 tools/mkmanifest.py
 (cd lean && timeout 2400 lake build PharmpyProofs.$P.Properties drv_$p 2>&1 | grep -E "error|warning: .*sorry|Build completed" | head -10)
 timeout 1500 ./check $P --tier quick 2>&1 | tail -6 | cut -c1-400
